@@ -151,6 +151,18 @@ def extra(report, env):
     cases += 1
     if log != [(1, 'a', [2, 3])] and len(fails) < 5:
         fails.append({'formula': 'MYF(1,"a",{2,3})', 'detail': 'arguments not passed in order: %r' % (log,)})
+    # a custom function receives whatever its arguments evaluate to - error values, blanks and arrays included - and its return value is the call's value
+    for text, nargs in (('MYF(1/0)', 1), ('MYF(1,NA(),3)', 3), ('MYF(SQRT(-1),"x")', 2), ('MYF(A1)', 1), ('MYF(,1)', 2), ('MYF({1,2},1/0)', 2)):
+        del log[:]
+        cases += 1
+        r = p.parse(text)
+        if (r != {'result': nargs, 'error': None} or len(log) != 1 or len(log[0]) != nargs) and len(fails) < 5:
+            fails.append({'formula': text, 'detail': 'a custom function is called once with the evaluated arguments whatever they are: got %r with calls %r' % (r, log)})
+    p.set_function('IFERROR', lambda a, b: 'mine')
+    cases += 1
+    r = p.parse('IFERROR(1/0,2)')
+    if r['result'] != 'mine' and len(fails) < 5:
+        fails.append({'formula': 'IFERROR(1/0,2)', 'detail': 'a custom IFERROR registered over the built-in: got %r' % (r,)})
     for text in ('NOSUCH()', 'NOSUCH(1)', 'NOSUCH(1)+1', '1+NOSUCH(2)*3', 'SUM(1,NOSUCH(2))', 'IF(TRUE,NOSUCH(),2)', '-NOSUCH(1)', 'NOSUCH(1)&"a"',
                  'NOSUCH.FN(1)', 'nosuch(1)', 'N0SUCH(1)'):
         cases += 1
